@@ -20,6 +20,9 @@ SCOPE_PREFIX = (M.PAGER + "::", M.ST + "idmap::IdMap::", M.ST + "idmap::write_i2
 
 def run(ctx):
     F = ctx.facts
+    from .c02 import scanner_rule
+    ctx.rule("C08.4", "log scanners discard the records of a failed (never committed) transaction when the next BeginTx arrives")
+    scanner_rule(ctx, "C08.4")
     ctx.rule("C08.1", "error exits before the durability point pass no mutation / publication point")
     ctx.rule("C08.2", "no propagated fallible call between the durability point and the last publication point")
     ctx.rule("C08.3", "no storage / io Result is discarded in the commit, compaction, checkpoint, pager and node-table code")
